@@ -310,7 +310,7 @@ class Model:
     def alias(self, m: MTable, new_id: str, name: str | None, keep: bool) -> MTable:
         nm = name if name is not None else m.name
         if keep:
-            return m.child(new_id, "alias_keep", name=nm, n_alias=m.n_alias + 1, same_as=m.id if not m.hidden() else None)
+            return m.child(new_id, "alias_keep", name=nm, n_alias=m.n_alias + 1, same_as=m.id)
         mp, lin_map = self._fresh(m, new_id, m.scope)
         res = m.child(
             new_id,
